@@ -4,13 +4,22 @@
 import RosuModel.Model.Text
 namespace Rosu
 
-/-- `KeyValue::parse` before the key is interpreted: `s.split(':').map(str::trim)`, first piece is
-the key text, **second piece** is the value (so everything after a second colon is dropped —
-this mirrors the code; see finding F1), missing value is `""`. -/
+/-- `str::split_once(':')`: text before and after the first colon. -/
+def splitOnce (sep : Char) : Str → Option (Str × Str)
+  | [] => none
+  | c :: cs =>
+    if c == sep then some ([], cs)
+    else
+      match splitOnce sep cs with
+      | some (a, b) => some (c :: a, b)
+      | none => none
+
+/-- `KeyValue::parse` before the key is interpreted: the trimmed text before the first colon is
+the key text, the trimmed text after it the value; without a colon the whole trimmed line is the
+key text and the value is `""`. -/
 def kvSplit (s : Str) : Str × Str :=
-  match splitOn ':' s with
-  | [] => (trim s, [])
-  | [k] => (trim k, [])
-  | k :: v :: _ => (trim k, trim v)
+  match splitOnce ':' s with
+  | some (k, v) => (trim k, trim v)
+  | none => (trim s, [])
 
 end Rosu
